@@ -78,6 +78,21 @@ pub open spec fn conv<R: RealNumberInternalTrait>(n: Number<R>) -> R {
     }
 }
 pub open spec fn i32r(x: int) -> bool { -0x8000_0000 <= x <= 0x7fff_ffff }
+/// the unreduced result n/d (d > 0) is representable as an exact number
+pub open spec fn fits(n: int, d: int) -> bool { -0x8000_0000 < n < 0x8000_0000 && 0 < d < 0x8000_0000 }
+/// q is the greatest integer not above the exact number x
+pub open spec fn is_floor<R: RealNumberInternalTrait>(q: int, x: Number<R>) -> bool {
+    q * denom(x) <= numer(x) < (q + 1) * denom(x)
+}
+pub open spec fn is_ceiling<R: RealNumberInternalTrait>(q: int, x: Number<R>) -> bool {
+    (q - 1) * denom(x) < numer(x) <= q * denom(x)
+}
+/// q is the greatest integer not above n/d  (n, d exact, positive denominators, d != 0)
+pub open spec fn is_floor_of_quotient<R: RealNumberInternalTrait>(q: int, n: Number<R>, d: Number<R>) -> bool {
+    let nn = numer(n) * denom(d);
+    let dd = denom(n) * numer(d);
+    if dd > 0 { q * dd <= nn < (q + 1) * dd } else { q * dd >= nn > (q + 1) * dd }
+}
 
 /// r = x + s*y  as rationals
 pub open spec fn is_sum<R: RealNumberInternalTrait>(r: Number<R>, x: Number<R>, y: Number<R>, s: int) -> bool {
@@ -93,10 +108,22 @@ pub open spec fn is_quotient<R: RealNumberInternalTrait>(r: Number<R>, x: Number
 pub open spec fn q_lt<R: RealNumberInternalTrait>(x: Number<R>, y: Number<R>) -> bool { numer(x) * denom(y) < numer(y) * denom(x) }
 pub open spec fn q_eq<R: RealNumberInternalTrait>(x: Number<R>, y: Number<R>) -> bool { numer(x) * denom(y) == numer(y) * denom(x) }
 
+/// the one case of the known finding: an Integer against a numerically equal Rational
+pub open spec fn mixed_int_ratio_equal<R: RealNumberInternalTrait>(x: Number<R>, y: Number<R>) -> bool {
+    ((x is Integer && y is Rational) || (x is Rational && y is Integer)) && q_eq(x, y)
+}
 pub open spec fn is_div_by_zero<T>(r: Result<T>) -> bool {
     r is Err && r->Err_0.data == ErrorData::Logic(LogicError::DivisionByZero)
 }
 
+impl<R: RealNumberInternalTrait> vstd::std_specs::cmp::PartialEqSpecImpl<Number<R>> for Number<R> {
+    open spec fn obeys_eq_spec() -> bool { false }
+    open spec fn eq_spec(&self, other: &Number<R>) -> bool { arbitrary() }
+}
+impl<R: RealNumberInternalTrait> vstd::std_specs::cmp::PartialOrdSpecImpl<Number<R>> for Number<R> {
+    open spec fn obeys_partial_cmp_spec() -> bool { false }
+    open spec fn partial_cmp_spec(&self, other: &Number<R>) -> Option<Ordering> { arbitrary() }
+}
 // operator contracts that a trait impl cannot carry as `requires` (Verus: AddSpecImpl & co.)
 impl<R: RealNumberInternalTrait> vstd::std_specs::ops::AddSpecImpl<Number<R>> for Number<R> {
     open spec fn obeys_add_spec() -> bool { false }
@@ -130,8 +157,17 @@ proof fn lemma_euc(a: int, b: int)
 {
     assert(a == b * (a / b) + a % b && 0 <= a % b < abs_int(b)) by(nonlinear_arith) requires b != 0;
 }
+proof fn lemma_euc_pos(a: int, b: int, q: int, r: int)
+    requires b != 0, a > 0, a == b * q + r, 0 <= r < abs_int(b)
+    ensures 0 <= b * q <= a, abs_int(q) * abs_int(b) <= a,
+{
+    if q == 0 { assert(abs_int(q) * abs_int(b) == 0) by(nonlinear_arith) requires q == 0; } else {
+        assert(abs_int(b * q) >= abs_int(b)) by(nonlinear_arith) requires q != 0, b != 0;
+        if b * q < 0 { assert(false); }
+        assert(abs_int(q) * abs_int(b) == abs_int(b * q)) by(nonlinear_arith);
+    }
+}
 
-/// Rust's truncating `/` and `%` on signed integers (vstd: rust_div / rust_rem)
 pub proof fn lemma_rust_div_rem(a: int, b: int)
     requires b != 0
     ensures
@@ -140,18 +176,62 @@ pub proof fn lemma_rust_div_rem(a: int, b: int)
         a >= 0 ==> rust_rem(a, b) >= 0,
         a <= 0 ==> rust_rem(a, b) <= 0,
         abs_int(rust_div(a, b)) <= abs_int(a),
+        abs_int(rust_div(a, b)) * abs_int(b) <= abs_int(a),
 {
     reveal(rust_div); reveal(rust_rem);
     if a > 0 {
         lemma_euc(a, b);
         let q = a / b; let r = a % b;
+        lemma_euc_pos(a, b, q, r);
         assert(q * b + r == a) by(nonlinear_arith) requires a == b * q + r;
-        assert(abs_int(q) <= a) by(nonlinear_arith) requires a == b * q + r, 0 <= r < abs_int(b), b != 0, a > 0;
+        assert(abs_int(q) <= a) by(nonlinear_arith) requires abs_int(q) * abs_int(b) <= a, abs_int(b) >= 1, abs_int(q) >= 0;
     } else if a < 0 {
         lemma_euc(-a, b);
         let q = (-a) / b; let r = (-a) % b;
+        lemma_euc_pos(-a, b, q, r);
         assert((-q) * b + (-r) == a) by(nonlinear_arith) requires -a == b * q + r;
-        assert(abs_int(q) <= -a) by(nonlinear_arith) requires -a == b * q + r, 0 <= r < abs_int(b), b != 0, a < 0;
+        assert(abs_int(q) <= -a) by(nonlinear_arith) requires abs_int(q) * abs_int(b) <= -a, abs_int(b) >= 1, abs_int(q) >= 0;
+        assert(abs_int(-q) == abs_int(q));
+    } else {
+        assert(abs_int(0) * abs_int(b) == 0) by(nonlinear_arith);
+    }
+}
+pub proof fn lemma_trunc_strict(a: int, b: int)
+    requires b != 0, rust_div(a, b) * b != a
+    ensures abs_int(rust_div(a, b)) < abs_int(a)
+{
+    lemma_rust_div_rem(a, b);
+    let q = rust_div(a, b); let r = rust_rem(a, b);
+    assert(r != 0);
+    assert(abs_int(b) >= 2);
+    assert(abs_int(q) < abs_int(a)) by(nonlinear_arith)
+        requires abs_int(q) * abs_int(b) <= abs_int(a), abs_int(b) >= 2, abs_int(q) >= 0, abs_int(a) >= 0, a != 0 || q == 0, q * b != a;
+}
+
+proof fn lemma_floor_of_quotient<R: RealNumberInternalTrait>(q: int, z: Number<R>, n: Number<R>, d: Number<R>)
+    requires
+        is_exact(z), wf(z), is_exact(n), is_exact(d), wf(n), wf(d), numer(d) != 0,
+        is_quotient(z, n, d), is_floor(q, z),
+    ensures is_floor_of_quotient(q, n, d)
+{
+    let zn = numer(z); let zd = denom(z);
+    let nn = numer(n) * denom(d); let dd = denom(n) * numer(d);
+    assert(dd != 0) by(nonlinear_arith) requires dd == denom(n) * numer(d), denom(n) > 0, numer(d) != 0;
+    assert(zn * dd == nn * zd);
+    if dd > 0 {
+        assert(q * dd <= nn) by(nonlinear_arith) requires zn * dd == nn * zd, q * zd <= zn, zd > 0, dd > 0;
+        assert(nn < (q + 1) * dd) by(nonlinear_arith) requires zn * dd == nn * zd, zn < (q + 1) * zd, zd > 0, dd > 0;
+    } else {
+        assert(q * dd >= nn) by(nonlinear_arith) requires zn * dd == nn * zd, q * zd <= zn, zd > 0, dd < 0;
+        assert(nn > (q + 1) * dd) by(nonlinear_arith) requires zn * dd == nn * zd, zn < (q + 1) * zd, zd > 0, dd < 0;
+    }
+}
+
+proof fn lemma_mul_commutes()
+    ensures forall|x: int, y: int| #![trigger x * y] x * y == y * x,
+{
+    assert forall|x: int, y: int| #![trigger x * y] x * y == y * x by {
+        assert(x * y == y * x) by(nonlinear_arith);
     }
 }
 
@@ -198,6 +278,15 @@ proof fn lemma_i32_products()
 '''
 
 R_OPS = "        proof { R::real_ops_are_total_functions(); lemma_i32_products(); }"
+R_OPS_CMP = "        proof { R::real_ops_are_total_functions(); lemma_i32_products(); lemma_mul_commutes(); }"
+FLOOR_HINT = """                proof {
+                    lemma_rust_div_rem(a as int, b as int);
+                    let q = rust_div(a as int, b as int);
+                    assert(quot == q);
+                    assert((q - 1) * b == q * b - b) by(nonlinear_arith);
+                    assert((q + 1) * b == q * b + b) by(nonlinear_arith);
+                    if q * b != a { lemma_trunc_strict(a as int, b as int); }
+                }"""
 # after the widening `let (a1, a2, b1, b2) = (.. as i64, ..)`: name the components (a solver hint, no new fact)
 WIDEN = (r"let \(a1, a2, b1, b2\) = \(a1 as i64, a2 as i64, b1 as i64, b2 as i64\);",
          "                proof { assert(is_exact(self) && is_exact(rhs) ==> denom(self) == a2 && denom(rhs) == b2 "
@@ -211,10 +300,16 @@ UNIT = {
     "uses": "use vstd::arithmetic::div_mod::*;\nuse vstd::std_specs::ops::*;\nuse vstd::std_specs::cmp::*;\nuse core::cmp::Ordering;",
     "rlimit": 30,
     "trusted": {
+        "i64::abs": "std i64::abs is the mathematical absolute value (x > i64::MIN)",
         "ErrorData": "opaque error payload (X2): only the DivisionByZero constructor is distinguished",
         "check_division_by_zero_err": "constructor of the DivisionByZero error (error! macro in expanded form, X6)",
     },
     "prelude": PRELUDE + r'''
+/// TRUSTED std: i64::abs (not specified by vstd)
+pub assume_specification [i64::abs] (x: i64) -> (r: i64)
+    requires x > i64::MIN
+    ensures r == abs_int(x as int);
+
 // ---- error types: only what `check_division_by_zero` constructs (X2 / X6) ----
 pub enum LogicError { DivisionByZero, Other }
 pub enum ErrorData { Logic(LogicError), Other }
@@ -264,6 +359,7 @@ fn check_division_by_zero_err<T>() -> (r: Result<T>)
             is_exact(self) && is_exact(rhs) ==> {
                 &&& (is_exact(r) ==> wf(r) && is_sum(r, self, rhs, 1))
                 &&& (small(self) && small(rhs) ==> is_exact(r))
+                &&& (fits(numer(self) * denom(rhs) + denom(self) * numer(rhs), denom(self) * denom(rhs)) ==> is_exact(r))
             },
             !is_exact(self) || !is_exact(rhs) ==> r == Number::Real(conv(self).add_spec(conv(rhs))),"""}}},
         {"kind": "impl", "file": V, "impl": r"std::ops::Sub<Number<R>> for Number<R>$",
@@ -274,6 +370,7 @@ fn check_division_by_zero_err<T>() -> (r: Result<T>)
             is_exact(self) && is_exact(rhs) ==> {
                 &&& (is_exact(r) ==> wf(r) && is_sum(r, self, rhs, -1))
                 &&& (small(self) && small(rhs) ==> is_exact(r))
+                &&& (fits(numer(self) * denom(rhs) - denom(self) * numer(rhs), denom(self) * denom(rhs)) ==> is_exact(r))
             },
             !is_exact(self) || !is_exact(rhs) ==> r == Number::Real(conv(self).sub_spec(conv(rhs))),"""}}},
         {"kind": "impl", "file": V, "impl": r"std::ops::Mul<Number<R>> for Number<R>$",
@@ -284,6 +381,7 @@ fn check_division_by_zero_err<T>() -> (r: Result<T>)
             is_exact(self) && is_exact(rhs) ==> {
                 &&& (is_exact(r) ==> wf(r) && is_product(r, self, rhs))
                 &&& (small(self) && small(rhs) ==> is_exact(r))
+                &&& (fits(numer(self) * numer(rhs), denom(self) * denom(rhs)) ==> is_exact(r))
             },
             !is_exact(self) || !is_exact(rhs) ==> r == Number::Real(conv(self).mul_spec(conv(rhs))),"""}}},
         {"kind": "impl", "file": V, "impl": r"std::ops::Div<Number<R>> for Number<R>$",
@@ -302,6 +400,33 @@ fn check_division_by_zero_err<T>() -> (r: Result<T>)
                 &&& (small(self) && small(rhs) ==> is_exact(r->Ok_0))
             },
             !is_exact(self) || !is_exact(rhs) ==> r == Ok::<Number<R>, SchemeError>(Number::Real(conv(self).div_spec(conv(rhs)))),"""}}},
+
+        {"kind": "impl", "file": V, "impl": r"^impl<R: RealNumberInternalTrait> PartialEq for Number<R>$",
+         "methods": {"eq": {"props": ["C10", "C07"],
+             "sig_rewrites": [("S1", r"-> bool$", "-> (r: bool)")],
+             "body_start": R_OPS_CMP,
+             "contract": """        ensures
+            wf(*self) && wf(*other) && is_exact(*self) && is_exact(*other) ==> r == q_eq(*self, *other),
+            !is_exact(*self) || !is_exact(*other) ==> r == conv(*self).eq_spec(&conv(*other)),"""}}},
+        {"kind": "impl", "file": V, "impl": r"^impl<R: RealNumberInternalTrait> PartialOrd for Number<R>$",
+         "methods": {"partial_cmp": {"props": ["C10", "C07"],
+             "sig_rewrites": [("S1", r"-> Option<Ordering>$", "-> (r: Option<Ordering>)")],
+             "body_start": R_OPS_CMP,
+             "contract": """        ensures
+            wf(*self) && wf(*other) && is_exact(*self) && is_exact(*other) ==> r == Some(
+                if q_lt(*self, *other) { Ordering::Less } else if q_eq(*self, *other) { Ordering::Equal } else { Ordering::Greater }),
+            !is_exact(*self) || !is_exact(*other) ==> r == conv(*self).partial_cmp_spec(&conv(*other)),"""}}},
+        {"kind": "impl", "file": V, "impl": IMPLN, "nth": 0,
+         "methods": {"exact_eqv": {"props": ["C10", "C07"],
+             "sig_rewrites": [("S1", r"-> bool$", "-> (r: bool)")],
+             "body_start": R_OPS_CMP,
+             "contract": """        ensures
+            // KNOWN FINDING (known_findings.toml: C10 eqv-integer-vs-ratio): an Integer and a numerically
+            // equal Rational are reported not eqv?; everything outside that case is proved here.
+            wf(*self) && wf(*other) && !mixed_int_ratio_equal(*self, *other) ==> r == (
+                if is_exact(*self) && is_exact(*other) { q_eq(*self, *other) }
+                else if !is_exact(*self) && !is_exact(*other) { conv(*self).eq_spec(&conv(*other)) }
+                else { false }),"""}}},
         {"kind": "impl", "file": V, "impl": IMPLN, "nth": 1,
          "methods": {
              "from_ratio": {"props": ["C09", "C07"],
@@ -312,7 +437,55 @@ fn check_division_by_zero_err<T>() -> (r: Result<T>)
         ensures
             is_exact(r) ==> wf(r) && numer(r) * den == num * denom(r),
             -0x8000_0000 < num < 0x8000_0000 && -0x8000_0000 < den < 0x8000_0000 ==> is_exact(r),
-            den == 1 && is_exact(r) ==> r == Number::<R>::Integer(num as i32),"""},
+            den == 1 && is_exact(r) ==> r == Number::<R>::Integer(num as i32),
+            is_exact(r) && num >= 0 && den > 0 ==> numer(r) >= 0,"""},
+
+             "abs": {"props": ["C09", "C07"],
+                 "sig_rewrites": [("S1", r"-> Number<R>$", "-> (r: Number<R>)")],
+                 "body_start": R_OPS,
+                 "contract": """        requires wf(self),
+        ensures
+            is_exact(self) ==> {
+                &&& (is_exact(r) ==> wf(r) && numer(r) >= 0
+                        && (numer(r) * denom(self) == numer(self) * denom(r) || numer(r) * denom(self) == -numer(self) * denom(r)))
+                &&& (small(self) ==> is_exact(r))
+            },
+            self matches Number::Real(x) ==> r == Number::Real(x.abs_spec()),"""},
+             "floor": {"props": ["C09", "C07"],
+                 "sig_rewrites": [("S1", r"-> Self$", "-> (r: Self)")],
+                 "body_start": R_OPS,
+                 "inserts": [(r"let quot = a / b;", FLOOR_HINT)],
+                 "contract": """        requires wf(self),
+        ensures
+            is_exact(self) ==> r is Integer && is_floor(numer(r), self),
+            self matches Number::Real(x) ==> r == Number::Real(x.floor_spec()),"""},
+             "ceiling": {"props": ["C09", "C07"],
+                 "sig_rewrites": [("S1", r"-> Self$", "-> (r: Self)")],
+                 "body_start": R_OPS,
+                 "inserts": [(r"let quot = a / b;", FLOOR_HINT)],
+                 "contract": """        requires wf(self),
+        ensures
+            is_exact(self) ==> r is Integer && is_ceiling(numer(r), self),
+            self matches Number::Real(x) ==> r == Number::Real(x.ceil_spec()),"""},
+
+             "floor_quotient": {"props": ["C09", "C08", "C07"],
+                 "sig_rewrites": [("S1", r"-> Result<Self>$", "-> (r: Result<Self>)")],
+                 "body_start": R_OPS + """
+        proof {
+            assert forall|z: Number<R>, q: int| #![trigger is_quotient(z, self, rhs), is_floor(q, z)]
+                is_exact(z) && wf(z) && is_exact(self) && is_exact(rhs) && numer(rhs) != 0
+                && is_quotient(z, self, rhs) && is_floor(q, z)
+                implies is_floor_of_quotient(q, self, rhs) by { lemma_floor_of_quotient(q, z, self, rhs); }
+        }""",
+                 "contract": """        requires wf(self), wf(rhs),
+        ensures
+            is_exact(self) && is_exact(rhs) && numer(rhs) == 0 ==> is_div_by_zero(r),
+            is_exact(self) && is_exact(rhs) && numer(rhs) != 0 ==> r is Ok && {
+                ||| (r->Ok_0 is Integer && is_floor_of_quotient(numer(r->Ok_0), self, rhs))
+                ||| (r->Ok_0 is Real && !(small(self) && small(rhs)))
+            },
+            !is_exact(self) || !is_exact(rhs) ==>
+                r == Ok::<Number<R>, SchemeError>(Number::Real(conv(self).div_spec(conv(rhs)).floor_spec())),"""},
          }},
     ],
     "spec": SPEC + r'''
@@ -334,3 +507,14 @@ impl<R: RealNumberInternalTrait> NumberBinaryOperand<R> {
 }
 ''',
 }
+
+
+# ---- as-found variant (VERIF_ASFOUND=1): the same contracts on the code of the pinned commit (no
+# ---- from_ratio helper, no widening lets to anchor hints on).  Used to report defects F1-F4 before the fix.
+import copy as _copy
+UNIT_ASFOUND = _copy.deepcopy(UNIT)
+for _it in UNIT_ASFOUND["items"]:
+    for _m in list((_it.get("methods") or {}).keys()):
+        _it["methods"][_m].pop("inserts", None)
+        if _m == "from_ratio":
+            del _it["methods"][_m]
